@@ -128,6 +128,8 @@ class Repo:
         self.classes: Dict[str, ClassInfo] = {}
         self.functions: Dict[str, FuncInfo] = {}
         self._mro_cache: Dict[str, List[str]] = {}
+        self.inlined = 0
+        self.inline_log: List[str] = []
         self._load()
 
     # ------------------------------------------------------------------ load
@@ -168,6 +170,15 @@ class Repo:
                     canon.tree(mod.tree)
                 except RecursionError as err:  # pragma: no cover
                     raise AnalysisError(f"canonicaliser did not terminate on {mod.relpath}") from err
+            from .inline import Inliner
+            from .inline import known_functions
+
+            inl = Inliner({m.name: m.tree for m in self.modules.values()}, known_functions())
+            self.inlined = inl.run()
+            self.inline_log = inl.log
+            if self.inlined:
+                for mod in self.modules.values():
+                    canon.tree(mod.tree)
         for mod in self.modules.values():
             self._index_module(mod)
         for mod in self.modules.values():
